@@ -31,7 +31,7 @@ type c08Stream struct{ prop string }
 func (s c08Stream) Name() string             { return "c08" }
 func (c08Stream) CaseTimeout() time.Duration { return 90 * time.Second }
 func (c08Stream) Rule() string {
-	return "K connections (1..12; plain / TLS / StartTLS) opened in two waves (reconnects after earlier ones closed), each tagged by the client, each with an in-flight state (no handler / two handlers blocked until after the ending / two handlers writing large results / two handlers just spawned when the ending arrives in the same TCP segment / one of two handlers panicking on its request goroutine, one ending with runtime.Goexit) and an ending (client close, RST, Unbind, malformed frame, unsupported operation, mid-frame disconnect, read timeout, recovered panic in an inline handler, server Stop, a StartTLS request followed by bytes that are no TLS handshake, a StartTLS request followed by nothing while the server is stopped), many ending concurrently; plus (from 40 cases up) one churn scenario: an early connection stays open while 70000 short connections come and go (with a moment of descriptor exhaustion half way), then 40 more bind; oracle: exactly one OnClose per accepted connection carrying the ConnectionID its requests saw, after the exit of every handler of that connection; the client sees the socket closed, but never while handlers of that connection are still blocked; all ConnectionIDs positive, stable and pairwise distinct over the server's life; goroutine and descriptor counts return to the baseline; trace replayed through the connection automaton; non-trivial = at least one connection with handlers in flight at its ending, distinct by scenario"
+	return "K connections (1..12; plain / TLS / StartTLS) opened in two waves (reconnects after earlier ones closed), each tagged by the client, each with an in-flight state (no handler / two handlers blocked until after the ending / two handlers writing large results / two handlers just spawned when the ending arrives in the same TCP segment / one of two handlers panicking on its request goroutine, one ending with runtime.Goexit) and an ending (client close, RST, Unbind, malformed frame, unsupported operation, mid-frame disconnect, read timeout, recovered panic in an inline handler, server Stop, a StartTLS request followed by bytes that are no TLS handshake, a StartTLS request followed by nothing while the server is stopped), many ending concurrently; plus (from 40 cases up) one churn scenario: an early connection stays open while 70000 short connections come and go (the first half one after another, then a moment of descriptor exhaustion, the second half from 32 clients at once), then 40 more bind; oracle: exactly one OnClose per accepted connection carrying the ConnectionID its requests saw, after the exit of every handler of that connection; the client sees the socket closed, but never while handlers of that connection are still blocked; all ConnectionIDs positive, stable and pairwise distinct over the server's life; goroutine and descriptor counts return to the baseline; trace replayed through the connection automaton; non-trivial = at least one connection with handlers in flight at its ending, distinct by scenario"
 }
 
 var c08Endings = []string{"close", "rst", "unbind", "malformed", "unsupported", "midframe", "timeout", "panic", "stop", "starttlsfail", "starttlsstop"}
@@ -71,6 +71,17 @@ func c08Churn(total int) string {
 		answer(w, r)
 	}
 	curTracer.Store(nil)
+	// in the concurrent half every fourth teardown pauses for a moment between the steps of the deferred teardown
+	// (socket closed / OnClose / wait-group release), as it would on a loaded machine
+	var yields int64
+	var parallel int32
+	yield := func(label string) {
+		if atomic.LoadInt32(&parallel) == 1 && (label == "conn.closed" || label == "conn.onclose" || label == "conn.teardown") && atomic.AddInt64(&yields, 1)%4 == 0 {
+			time.Sleep(20 * time.Microsecond)
+		}
+	}
+	perturb.Store(&yield)
+	defer perturb.Store(nil)
 	srv, err := gldap.NewServer(gldap.WithLogger(hclog.NewNullLogger()), gldap.WithOnClose(func(id int) {
 		mu.Lock()
 		onClose[id]++
@@ -130,6 +141,9 @@ func c08Churn(total int) string {
 			opened += int64(len(hold))
 			time.Sleep(40 * time.Millisecond)
 		}
+		if i > total/2 {
+			break // the second half comes from 32 clients at once (below)
+		}
 		for opened-atomic.LoadInt64(&closed) > 200 {
 			time.Sleep(50 * time.Microsecond) // do not outrun the accept loop
 		}
@@ -147,6 +161,45 @@ func c08Churn(total int) string {
 			c.Close()
 		}
 		opened++
+	}
+	// second half: 32 clients connect and hang up concurrently (connections being set up while others are torn down)
+	{
+		atomic.StoreInt32(&parallel, 1)
+		var wg sync.WaitGroup
+		var perr atomic.Value
+		per := (total - total/2 - 1) / 32
+		for g := 0; g < 32; g++ {
+			wg.Add(1)
+			go func(g int) {
+				defer wg.Done()
+				for j := 0; j < per; j++ {
+					for atomic.LoadInt64(&opened)-atomic.LoadInt64(&closed) > 400 {
+						time.Sleep(50 * time.Microsecond)
+					}
+					if j%251 == 0 {
+						cl, e := bind(fmt.Sprintf("cn=par%d-%d", g, j))
+						if e != "" {
+							perr.Store(e)
+							return
+						}
+						cl.close()
+					} else {
+						c, err := net.DialTimeout("tcp", addr, 5*time.Second)
+						if err != nil {
+							perr.Store("harness-error dial: " + err.Error())
+							return
+						}
+						c.Close()
+					}
+					atomic.AddInt64(&opened, 1)
+				}
+			}(g)
+		}
+		wg.Wait()
+		atomic.StoreInt32(&parallel, 0)
+		if e := perr.Load(); e != nil {
+			return e.(string)
+		}
 	}
 	var late []*rawClient
 	for i := 0; i < 40; i++ {
